@@ -276,3 +276,19 @@ CHECKS = {
         "technique": "Coq invariant proof over operation histories modulo a section variable + history/process correspondence sweep",
     },
 }
+
+
+# ---- additions of the last build round (appended to the texts above by bin/mkmanifest)
+EXTRA = {
+ "C01": " ALSO: the model's nesting counter (C01Model.depth_run, limit read from Parser__IMPL__.inc) is compared with the implementation on nests around the limit (the limit was never enforced: repaired); inputs include gen/declgen.py units and fragments, '#' lines (line directives and expansion markers with random arguments: two defects repaired) and the witnesses of every repaired defect.",
+ "C02": " ALSO: gen/declgen.py units (specifiers of every form in every position, nested declarators, bit-fields, anonymous members, tags declared in parameter lists and type names, attributes, statement expressions) and structure graphs with cycles; failures are shrunk by delta debugging; null results are demanded of units without syntax errors only; the witnesses of every repaired defect run first.",
+ "C03": " ALSO: every grammatical adjacency of two operator tokens that would merge without a blank; GNU forms (extension keyword in front of every expression and declaration kind, alternate keywords) parsed with the GNU switches.",
+ "C05": " ALSO (Properties_C05_Tokens.v): theorems C05_next_token / C05_next_token_fetch / C05_end_of_file about coq/LexModel.v, a hand transcription of Lexer::yylex (white-space loop, switch, every sub-lexer) and Lexer::lex with the punctuator cases plugged in from the regenerated programs: after ANY separator (white space, block comments incl. the doc-comment openers, line comments, line splices) a valid token of ANY class of C11 6.4 over the basic source character set (identifier; decimal, octal, hexadecimal integer constant with any 6.4.4.1 suffix; decimal and hexadecimal floating constant with exponent and suffix; character constant and string literal with every prefix and escape; punctuator; '/' and '/=') followed by anything the class allows next to it is answered by ONE call of yylex with exactly its kind, first byte and last byte; at the end of the text the answer is EndOfFile; and C05_token_sequence: for a WHOLE text made of such tokens and separators (no '#' token), the token loop of Lexer::lex delivers exactly those tokens in order, each with its kind, first and last byte, followed by exactly one end-of-file token with an empty extent at the end.  The model is tied on every run: extracted and run against the compiled lexer on whole token vectors (kind, byte extent, UTF-16 extent, line flags) for generated token texts, the repository's test texts and byte soup, with comments discarded and kept.  UTF-8, keyword recognition, raw strings and the directive loop are in the model (correspondence) but not in the theorems.",
+ "C09": " ALSO: an ambiguity in operand position of another; declarations with several declarators (known finding).",
+ "C12": " ALSO: several declarators per declaration in the generated programs.",
+ "C14": " ALSO: GNU units parsed with the GNU switches and the extension keyword in front of every kind of node; parenthesised declarators with initializers (known finding).",
+ "C15": " ALSO: texts that touch what a Compilation shares between its trees: every basic type under every order of its specifiers, unnamed structures/unions/enumerations (synthetic tag numbering).",
+ "C19": " ALSO: files on which the external preprocessor fails by itself (#error, unterminated #if) under -pp s and -pp r, with the outcome known independently of the driver.",
+}
+for _k, _v in EXTRA.items():
+    CHECKS[_k]["text"] = CHECKS[_k]["text"] + _v
